@@ -216,6 +216,9 @@ func (r *Result) Emit(start time.Time, seed int, extra map[string]any, explanati
 	c := r.Ctx
 	vdir := VerifDir()
 	evdir := filepath.Join(vdir, "evidence")
+	if d := os.Getenv("SCVERIF_EVIDENCE_DIR"); d != "" {
+		evdir = d // runs against deliberately modified trees (seeded changes) must not overwrite the evidence of the real tree
+	}
 	rpdir := filepath.Join(evdir, "replay")
 	_ = os.MkdirAll(rpdir, 0o755)
 	// remove stale replay files of this property
